@@ -139,7 +139,7 @@ def In.record (i : In) (op : List String) (exts : List (List String)) : Option I
 /-- Which of the proposed repairs (`Model.Convert.Fixes`) the code under test contains.  All `false`
 = /repo as it is.  Flip a flag here when the corresponding patch lands; for a trial run against a
 patched worktree set `VERIF_C38_FIXED=yamlf,items,deprecated,renderMap,condValue` (any subset). -/
-def fixesDefault : Fixes := {}
+def fixesDefault : Fixes := { yamlf := true, items := true, deprecated := true, renderMap := true, condValue := true }
 
 def fixesFromEnv (v : Option String) : Fixes :=
   match v with
